@@ -181,7 +181,7 @@ def _trace_module_source_file(module: str) -> str | None:
 
             try:
                 module_spec = importlib.util.find_spec(module)
-            except ImportError:
+            except (ImportError, ValueError):  # ValueError if the module has no spec, like __main__
                 return None
 
             if module_spec is None:
